@@ -99,8 +99,9 @@ pub fn unservable(shards: &[&str], layout: &str, default_shard: &str, default_ro
     r
 }
 
-pub fn scenario(shards: &[&str], layout: &str, default_shard: &str, default_role: &str, misc: &str) -> Scenario {
-    let mut pool = PoolCfg::simple("db", "transaction", 2, 1, 0);
+/// One pool definition of the grammar (and the [general] lines its `misc` item needs).
+fn pool_for(name: &str, shards: &[&str], layout: &str, default_shard: &str, default_role: &str, misc: &str) -> (PoolCfg, String) {
+    let mut pool = PoolCfg::simple(name, "transaction", 2, 1, 0);
     pool.shards = shards.iter().map(|k| ShardCfg { id: k.to_string(), database: format!("dbk{}", k.replace('-', "m")), servers: servers_for(k, layout), mirrors: vec![] }).collect();
     let mut extra = String::new();
     if default_shard != "-" {
@@ -121,7 +122,9 @@ pub fn scenario(shards: &[&str], layout: &str, default_shard: &str, default_role
         "authquery-user-password-only" => extra.push_str("auth_query_user = \"authuser\"\nauth_query_password = \"authpw\"\n"),
         "authquery-query-only" => extra.push_str("auth_query = \"SELECT usename, passwd FROM pg_shadow WHERE usename='$1'\"\n"),
         "bad-regex" => extra.push_str("sharding_key_regex = '/\\* sharding_key: (\\d+ \\*/'\n"),
-        "plugins-without-parser" => pool.plugins = "[pools.db.plugins.table_access]\nenabled = true\ntables = [\"t\"]\n".into(),
+        "plugins-without-parser" => pool.plugins = format!("[pools.{}.plugins.table_access]\nenabled = true\ntables = [\"t\"]\n", name),
+        // auth_query fully configured for this pool only
+        "authquery-pool-level" => extra.push_str("auth_query = \"SELECT usename, passwd FROM pg_shadow WHERE usename='$1'\"\nauth_query_user = \"authuser\"\nauth_query_password = \"authpw\"\n"),
         "rw-split-without-parser" => extra.push_str("query_parser_read_write_splitting = true\n"),
         "min-pool-too-big" => pool.users[0].extra = "min_pool_size = 5\n".into(),
         "two-users" => pool.users.push(UserCfg { username: "bob".into(), password: Some("bobpw".into()), pool_size: 1, extra: String::new() }),
@@ -129,6 +132,11 @@ pub fn scenario(shards: &[&str], layout: &str, default_shard: &str, default_role
         _ => panic!("misc"),
     }
     pool.extra = extra;
+    (pool, general)
+}
+
+pub fn scenario(shards: &[&str], layout: &str, default_shard: &str, default_role: &str, misc: &str) -> Scenario {
+    let (pool, general) = pool_for("db", shards, layout, default_shard, default_role, misc);
     let mut cfg = Cfg::one(pool);
     cfg.general_extra = general;
     let mut servers = cfg.servers();
@@ -199,6 +207,40 @@ pub fn scenario(shards: &[&str], layout: &str, default_shard: &str, default_role
     }
 }
 
+/// Two pools: the first one clean (or with auth_query configured for itself only), the second one carries
+/// the item under test. A defect of any pool makes the file unservable; a clean second pool must be served.
+pub fn scenario_two(first_misc: &str, second: (&[&str], &str, &str, &str, &str)) -> Scenario {
+    let (shards, layout, ds, dr, misc) = second;
+    let (first, g1) = pool_for("db", &["0"], "p+r", "-", "-", first_misc);
+    let (second_pool, g2) = pool_for("db2", shards, layout, ds, dr, misc);
+    let mut cfg = Cfg { pools: vec![first, second_pool], ..Default::default() };
+    cfg.general_extra = format!("{}{}", g1, g2);
+    let mut servers = cfg.servers();
+    for s in servers.iter_mut() {
+        s.shadow.insert("alice".into(), format!("md5{}", crate::wire::md5_hex(b"alicepwalice")));
+    }
+    let mut reasons = unservable(shards, layout, ds, dr, misc);
+    reasons.extend(unservable(&["0"], "p+r", "-", "-", first_misc));
+    let mut c0 = Script::new("c0").connect("alice", "db", Some("alicepw"));
+    let mut c1 = Script::new("c1").connect("alice", "db2", Some("alicepw"));
+    for t in 0..2 {
+        c0 = c0.q(&format!("SELECT 0 /*{}*/", tag(0, t, 0)));
+        c1 = c1.q(&format!("SELECT 0 /*{}*/", tag(1, t, 0)));
+    }
+    c0 = c0.step(Step::Advance(31_000)).q(&format!("SELECT 0 /*{}*/", tag(0, 2, 0))).terminate();
+    c1 = c1.wait(Cond::ActorsDone(vec![0])).q(&format!("SELECT 0 /*{}*/", tag(1, 2, 0))).terminate();
+    let admin = vec![Step::Wait(Cond::ActorsDone(vec![0, 1])), Step::Admin("SHOW DATABASES".into()), Step::Admin("SHOW POOLS".into()), Step::Admin("SHOW SERVERS".into()), Step::Probe];
+    Scenario {
+        name: format!("C15 two-pools first={} second=shards={} layout={} default_shard={} default_role={} misc={}", first_misc, shards.join(","), layout, ds, dr, misc),
+        toml: cfg.toml(),
+        alt_tomls: vec![],
+        servers,
+        actors: vec![c0.actor(), c1.actor(), env("admin", admin)],
+        opts: Opts { horizon_ms: 120_000, max_events: 800, ..Opts::default() },
+        meta: serde_json::json!({"unservable": reasons, "n": shards.len(), "default_shard": ds, "two_pools": true}),
+    }
+}
+
 fn shard_of_host(addr: &str) -> Option<usize> {
     addr.strip_prefix("pg-s")?.split('-').next()?.parse().ok()
 }
@@ -238,6 +280,21 @@ pub fn oracle(sc: &Scenario, out: &Outcome) -> Vec<Violation> {
         vs.push(v("C15.blocked", format!("C15.blocked:{}", key), blocked_note(log).unwrap_or_default()));
     }
     if !reasons.is_empty() {
+        return vs;
+    }
+    if sc.meta.get("two_pools").is_some() {
+        // servable: each of the two clients gets all three of its statements run
+        for c in 0..2usize {
+            let ran = log.iter().filter(|e| matches!(&e.rec, Rec::BExec { sql, .. } if find_tag(sql.as_bytes()).map(|t| t.c == c).unwrap_or(false))).count();
+            if ran != 3 {
+                let errs: Vec<String> = client_msgs(log, c).iter().filter(|(_, m)| m.code == b'E').map(|(_, m)| m.err_field(b'M').unwrap_or_default()).collect();
+                vs.push(v(
+                    "C15.not-served",
+                    format!("C15.not-served:two-pools:{}", if c == 0 { "first" } else { "second" }),
+                    format!("client of the {} pool sent 3 statements, {} were executed; errors {:?}", if c == 0 { "first" } else { "second" }, ran, errs),
+                ));
+            }
+        }
         return vs;
     }
     // servable configuration: every addressed shard is served by that shard's servers
@@ -305,12 +362,30 @@ pub fn build(tier: &str) -> SimCheck {
             }
         }
     }
+    // two pools: the item under test sits in the second pool
+    for first in ["none", "authquery-pool-level"] {
+        for misc in MISC {
+            scenarios.push(scenario_two(first, (&["0", "1"], "p+r", "-", "-", misc)));
+        }
+        for shards in [&["0"][..], &["1", "2"][..], &["0", "2"][..], &["0", "x"][..]] {
+            scenarios.push(scenario_two(first, (shards, "p+r", "-", "-", "none")));
+        }
+        for layout in LAYOUTS {
+            scenarios.push(scenario_two(first, (&["0", "1"], layout, "-", "-", "none")));
+        }
+        for ds in DEFAULT_SHARDS {
+            scenarios.push(scenario_two(first, (&["0", "1"], "p+r", ds, "-", "none")));
+        }
+        for dr in DEFAULT_ROLES {
+            scenarios.push(scenario_two(first, (&["0", "1"], "p+r", "-", dr, "none")));
+        }
+    }
     SimCheck {
         scenarios,
         oracle: Box::new(oracle),
         bound: 0,
         limits: Limits { max_wall_s: if thorough { 2400.0 } else { 55.0 }, ..Default::default() },
-        rule: "configuration grammar: 16 shard-id sets (contiguous up to 12 shards, not from 0, gaps, duplicates by value, non-numeric, unordered) x 7 server layouts (roles, two primaries, duplicate servers) x 8 default_shard values x 6 default_role values (incl. a capitalised one) (quick: one dimension varied at a time around the base, full cross of shard sets x default_shard) + 10 other defects (missing credentials, auth_query, half-configured auth_query, invalid regex, plugins / splitting without parser, min_pool_size, unqualified sharding key, two users); each file is loaded by the real config::parse + from_config in its own process; accepted files are then served: one transaction per (shard 0..n-1, role), one with no shard selected, one more per shard after an idle gap (health check on checkout), SHOW DATABASES/POOLS/STATS/SERVERS/BANS/CONFIG, BAN/UNBAN".into(),
+        rule: "configuration grammar: 16 shard-id sets (contiguous up to 12 shards, not from 0, gaps, duplicates by value, non-numeric, unordered) x 7 server layouts (roles, two primaries, duplicate servers) x 8 default_shard values x 6 default_role values (incl. a capitalised one) (quick: one dimension varied at a time around the base, full cross of shard sets x default_shard) + two-pool files (first pool clean or with auth_query configured for itself only; every item of the grammar placed in the second pool) + 10 other defects (missing credentials, auth_query, half-configured auth_query, invalid regex, plugins / splitting without parser, min_pool_size, unqualified sharding key, two users); each file is loaded by the real config::parse + from_config in its own process; accepted files are then served: one transaction per (shard 0..n-1, role), one with no shard selected, one more per shard after an idle gap (health check on checkout), SHOW DATABASES/POOLS/STATS/SERVERS/BANS/CONFIG, BAN/UNBAN".into(),
         assumptions: vec!["reference predicate 'unservable' is the property's own list; rejecting a file is always safe".into()],
     }
 }
